@@ -69,9 +69,9 @@ pub fn from_resolved(ty: &ResolvedType) -> Ty {
 
 pub fn to_uint_value(bits: u16, v: U256) -> UIntValue {
     match bits {
-        1 => UIntValue::u1(v.lo as u8).expect("u1 range"),
-        2 => UIntValue::u2(v.lo as u8).expect("u2 range"),
-        4 => UIntValue::u4(v.lo as u8).expect("u4 range"),
+        1 => UIntValue::u1(v.lo as u8).unwrap_or_else(|e| panic!("LIBRARY: UIntValue::u1({}) rejects a value in range: {e}", v.lo)),
+        2 => UIntValue::u2(v.lo as u8).unwrap_or_else(|e| panic!("LIBRARY: UIntValue::u2({}) rejects a value in range: {e}", v.lo)),
+        4 => UIntValue::u4(v.lo as u8).unwrap_or_else(|e| panic!("LIBRARY: UIntValue::u4({}) rejects a value in range: {e}", v.lo)),
         8 => UIntValue::U8(v.lo as u8),
         16 => UIntValue::U16(v.lo as u16),
         32 => UIntValue::U32(v.lo as u32),
